@@ -680,6 +680,11 @@ class AppMutator(BaseMutator):
                             mutation.new_field_name = \
                                 rename_mutations[0].new_field_name
 
+                            # The last rename also decides the column or
+                            # table name the field ends up with.
+                            mutation.db_column = rename_mutations[0].db_column
+                            mutation.db_table = rename_mutations[0].db_table
+
                             # Mark everything but the last rename mutation
                             # for removal, and update the list of mutations to
                             # include only this one.
